@@ -96,7 +96,39 @@ class FilterSeq(SpecSeq):
         rs = z3.SeqSort(item_sort)
         SpecSeq.__init__(self, name, param_sorts, lambda *a: z3.If(cond(*a), z3.Unit(item(*a)), z3.Empty(rs)), result=rs)
 
+    def sound_lemma(self):
+        """every member is a kept item, as a hypothesis (proved by induction with `members-are-kept-items/base|step`: the property module must list
+        this sequence in SPECSEQS so that the proof is part of the same run)"""
+        ps = [z3.Const('p%d!fs' % i, s_) for i, s_ in enumerate(self.param_sorts)]
+        t, j = z3.Int('t!fs'), z3.Int('j!fs'); y = z3.Const('y!fs', self.item_sort)
+        F = self.f(*(ps + [t]))
+        return z3.ForAll(ps + [t, y], z3.Implies(z3.And(t >= 0, z3.Contains(F, z3.Unit(y))),
+                                                 z3.Exists([j], z3.And(0 <= j, j < t, self.cond(*(ps + [j])), self.item(*(ps + [j])) == y))),
+                         patterns=[z3.Contains(F, z3.Unit(y))])
+
+    def positions_lemma(self):
+        """the item at every position of the filtered list is a kept item of the source, as a hypothesis (proved by induction with
+        `positions-are-kept-items/base|step`; the property module must list this sequence in SPECSEQS)"""
+        ps = [z3.Const('p%d!fp' % i, s_) for i, s_ in enumerate(self.param_sorts)]
+        t, j, k = z3.Int('t!fp'), z3.Int('j!fp'), z3.Int('k!fp')
+        F = self.f(*(ps + [t]))
+        return z3.ForAll(ps + [t, k], z3.Implies(z3.And(t >= 0, 0 <= k, k < z3.Length(F)),
+                                                 z3.Exists([j], z3.And(0 <= j, j < t, self.cond(*(ps + [j])), self.item(*(ps + [j])) == F[k]))),
+                         patterns=[F[k]])
+
     def lemma_obligations(self):
+        out0 = []
+        ps0 = [z3.FreshConst(s_, 'p') for s_ in self.param_sorts]; n0, k0 = z3.FreshConst(IntS, 'n'), z3.FreshConst(IntS, 'sk_k'); j0 = z3.Int('j!pw')
+        F0 = lambda t: self.f(*(ps0 + [t]))
+        def pos(t, k_): return z3.Implies(z3.And(0 <= k_, k_ < z3.Length(F0(t))), z3.Exists([j0], z3.And(0 <= j0, j0 < t, self.cond(*(ps0 + [j0])), self.item(*(ps0 + [j0])) == F0(t)[k_])))
+        kq = z3.Int('k!pq')
+        out0 += [('speclib/%s/positions-are-kept-items/base' % self.name, [F0(z3.IntVal(0)) == self.empty], pos(z3.IntVal(0), k0)),
+                 # the step by cases on whether element n is kept (the unfolding F(n+1) == F(n) ++ (if kept [item n] else []) with the condition decided)
+                 ('speclib/%s/positions-are-kept-items/step-kept' % self.name,
+                  [n0 >= 0, z3.ForAll([kq], pos(n0, kq)), self.cond(*(ps0 + [n0])), F0(n0 + 1) == z3.Concat(F0(n0), z3.Unit(self.item(*(ps0 + [n0])))),
+                   z3.Length(F0(n0 + 1)) == z3.Length(F0(n0)) + 1], pos(n0 + 1, k0)),
+                 ('speclib/%s/positions-are-kept-items/step-dropped' % self.name,
+                  [n0 >= 0, z3.ForAll([kq], pos(n0, kq)), z3.Not(self.cond(*(ps0 + [n0]))), F0(n0 + 1) == F0(n0)], pos(n0 + 1, k0))]
         ps = [z3.FreshConst(s_, 'p') for s_ in self.param_sorts]
         n, k = z3.FreshConst(IntS, 'n'), z3.FreshConst(IntS, 'k'); y = z3.FreshConst(self.item_sort, 'y')
         F = lambda t: self.f(*(ps + [t]))
@@ -105,7 +137,7 @@ class FilterSeq(SpecSeq):
         def sound(t): return z3.Implies(z3.Contains(F(t), z3.Unit(y)), z3.Exists([j], z3.And(0 <= j, j < t, self.cond(*(ps + [j])), self.item(*(ps + [j])) == y)))
         def complete(t): return z3.Contains(F(t), z3.Unit(self.item(*(ps + [k]))))
         nm = 'speclib/%s/' % self.name
-        return [(nm + 'members-are-kept-items/base', [F(z3.IntVal(0)) == self.empty], sound(z3.IntVal(0))),
+        return out0 + [(nm + 'members-are-kept-items/base', [F(z3.IntVal(0)) == self.empty], sound(z3.IntVal(0))),
                 (nm + 'members-are-kept-items/step', [n >= 0, sound(n), unfold(n)], sound(n + 1)),
                 (nm + 'kept-items-are-members/base', [k >= 0, self.cond(*(ps + [k])), unfold(k)], complete(k + 1)),
                 (nm + 'kept-items-are-members/step', [k >= 0, n > k, complete(n), unfold(n)], complete(n + 1)),
